@@ -132,7 +132,7 @@ func TestC14_FreeRunningGoroutines(t *testing.T) {
 		actors := []int{4, 8, 16, 6}[(round+shard)%4]
 		nURLs := 1 + (round+shard)%3
 		nOps := 288 / actors // keeps the history small enough for the linearizability search
-		root, cleanup := newRoot()
+		root, cleanup := newRootOn(round%2 == 1)
 		cache, err := crl.NewFileCache(root)
 		if err != nil {
 			t.Fatalf("harness: %v", err)
@@ -181,6 +181,9 @@ func TestC14_FreeRunningGoroutines(t *testing.T) {
 		rootMsg := checkRoot(root, false)
 		cleanup()
 		cl := []string{"explorer=free-running", "free-running=goroutines", fmt.Sprintf("actors=%d", actors), fmt.Sprintf("urls=%d", nURLs)}
+		if round%2 == 1 && otherMount != "" {
+			cl = append(cl, "cache-root-on-another-file-system-than-tmpdir")
+		}
 		if key == "inconclusive" {
 			cl = append(cl, "linearizability-check-timed-out")
 			key = ""
@@ -214,7 +217,7 @@ func TestC14_FreeRunningProcesses(t *testing.T) {
 	for round := 0; round < rounds; round++ {
 		procs := []int{4, 6, 8}[(round+shard)%3]
 		nURLs := 1 + (round+shard)%2
-		root, cleanup := newRoot()
+		root, cleanup := newRootOn((round+shard)%2 == 1)
 		if _, err := crl.NewFileCache(root); err != nil {
 			t.Fatalf("harness: %v", err)
 		}
